@@ -481,6 +481,46 @@ func (e *c09Env) mustPassAfter(fn *ssa.Function, open func(ssa.Instruction) bool
 	return fl.Solve()
 }
 
+// passedBefore: the order-free half of the pairing. On every path reaching
+// site a call to one of targets (or an edge on which nilOK is nil) has
+// happened since the function's entry and since the last other site of the
+// same kind (one notification does not serve two updates): "tell the picker,
+// then update the torrent-side map" is the same behaviour as the reverse
+// order inside one handler of the single-threaded event loop.
+func (e *c09Env) passedBefore(site ssa.Instruction, other func(ssa.Instruction) bool, nilOK *types.Var, targets ...*types.Func) bool {
+	fn := site.Parent()
+	fl := &kit.Flow{P: e.c.Prog, Fn: fn}
+	if nilOK != nil {
+		fl.Edge = func(a kit.Atom) bool {
+			return a.IsNilCmp(true, func(x *kit.Expr) bool { return x.IsField(nilOK) })
+		}
+	}
+	isTarget := func(ins ssa.Instruction) bool {
+		_, isCall := ins.(*ssa.Call)
+		return isCall && kit.CallsAny(ins, targets...)
+	}
+	fl.Instr = func(ins ssa.Instruction, in bool) bool {
+		if isTarget(ins) {
+			return true
+		}
+		if call, ok := ins.(*ssa.Call); ok {
+			if callee := call.Call.StaticCallee(); callee != nil && callee != fn && callee.Blocks != nil && kit.InModule(kit.FnPkgPath(callee)) {
+				if e.c.MustCallSummary(callee, isTarget, 2) {
+					return true
+				}
+			}
+		}
+		if ins != site && other != nil && other(ins) {
+			return false
+		}
+		if nilOK != nil && in && e.c.KillsField(ins, nilOK) {
+			return false
+		}
+		return in
+	}
+	return fl.Solve().Before(site)
+}
+
 // closesPeer decides "every returning path of fn either saw Peer.Closed
 // already true, or stored Peer.Closed=true (itself or in a callee that
 // does)": the function is a way of closing a peer.
@@ -600,7 +640,11 @@ func (e *c09Env) ruleInStep() {
 				key := e.k.key(fn, r.kind+" torrent."+r.f.Name()+" tells the picker")
 				site := site
 				fl := e.mustPassAfter(fn, func(ins ssa.Instruction) bool { return ins == site }, fPicker, r.targets...)
-				if fr := fl.FailingReturns(); len(fr) > 0 {
+				r := r
+				sameKind := func(ins ssa.Instruction) bool { k, _ := c09MapWrite(ins, r.f); return k == r.kind }
+				if fr := fl.FailingReturns(); len(fr) > 0 && e.passedBefore(site, sameKind, fPicker, r.targets...) {
+					c.OK("R09.7", key, posOf(site), "piecePicker.%s (or the picker is nil) precedes the %s on every path", c09Names(r.targets), r.kind)
+				} else if len(fr) > 0 {
 					c.Bad("R09.7", key, posOf(site), "%s on torrent.%s can reach a return (%s) without piecePicker.%s (picker non-nil): torrent-side and picker-side views of stalled downloads diverge", r.kind, r.f.Name(), c.Pos(posOf(fr[0])), c09Names(r.targets))
 				} else {
 					c.OK("R09.7", key, posOf(site), "every path after the %s passes piecePicker.%s, or the picker is nil", r.kind, c09Names(r.targets))
